@@ -43,3 +43,27 @@ func VH_C17_TruncatedResponse(apiKey, version, shape, endKind int) {
 	}
 	vhReach("c17-truncated")
 }
+
+// C17-H1b: fetch responses carrying record batches (reference-encoded, several batches per response), cut at every
+// byte of the record data: ReadResponse must fail - never a response holding only the batches received so far.
+func VH_C17_TruncatedFetch(version, nb int) {
+	first := vhInt64("log_fragment_start")
+	vhAssume(vhAll(first >= 0, first < 1<<40))
+	var wire []byte
+	base := first
+	for b := 0; b < nb; b++ {
+		k := vhBytes("key", 1)
+		v := vhBytes("value", 2)
+		wire = append(wire, vhEncBatchV2(base, 0, 0, 1600000000000, 1600000000000, 1, []vhRec{{key: k, value: v}})...)
+		base++
+	}
+	frame := vhFetchResponse(7, version, 0, "t", 0, 0, base+10, wire)
+	// cut somewhere inside the record data (the header part is covered by VH_C17_TruncatedResponse)
+	k := len(frame) - len(wire) + vhChoose("cut", len(wire))
+	fc := &vhFakeConn{data: frame[:k]}
+	conn := NewConn(fc, "vh")
+	_, got, rerr := ReadResponse(conn, Fetch, int16(version))
+	vhAssert(rerr != nil, "truncated-fetch-response-yields-error")
+	vhAssert(got == nil || rerr != nil, "no-partial-fetch-response")
+	vhReach("c17-truncated-fetch")
+}
